@@ -32,6 +32,7 @@ type LoopSpec struct {
 	Unroll     int // >0: unroll with unwinding assertion
 	Invariants []*Clause
 	Iters      []*Clause
+	Exits      []*Clause // evaluated when control leaves the loop (break / normal exit)
 	Lets       []*Clause
 	IterLets   []*Clause // evaluated at the start of every iteration (after the loop cut)
 	Assigns    []string
@@ -355,6 +356,10 @@ func ParseContracts(lines, poss []string) (*Contracts, error) {
 					c := &Clause{Kind: "iter", Tags: ltags, Raw: subrest, Loop: ord, Line: pos}
 					ls.Iters = append(ls.Iters, c)
 					lastClause = c
+				case "exit":
+					c := &Clause{Kind: "iter", Tags: ltags, Raw: subrest, Loop: ord, Line: pos}
+					ls.Exits = append(ls.Exits, c)
+					lastClause = c
 				case "let", "iterlet":
 					m := regexp.MustCompile(`^(\w+)\s+(.+?)\s*=\s*(.*)$`).FindStringSubmatch(subrest)
 					if m == nil {
@@ -416,6 +421,9 @@ func ParseContracts(lines, poss []string) (*Contracts, error) {
 				fix(c)
 			}
 			for _, c := range l.Iters {
+				fix(c)
+			}
+			for _, c := range l.Exits {
 				fix(c)
 			}
 			for _, c := range l.Lets {
